@@ -68,7 +68,7 @@ def RBuf (st : State) (special : Bool) (bi : Bytes) (ss : Spec.PS) : Prop :=
   | .query => bi = utf8 (Spec.utf8PercentEncode (if special then Spec.specialQuerySet else Spec.querySet) ss.buffer) ∧
               ss.url.query = some []   -- the standard's query stays "" until the buffer is flushed
   | .fragment => True      -- see `viewUrl`: compared through the fragment field (the standard's buffer is unused)
-  | .opaquePath => True    -- see `viewUrl`: the standard appends to the path, the Go code keeps path and buffer equal
+  | .opaquePath => ss.buffer = []   -- the standard appends to the path and never uses its buffer here; the Go code keeps path and buffer equal (see RPS.opq)
   | _ => bi = utf8 ss.buffer
 
 /-- the Go url "as it will be": in the fragment state the text collected in the buffer is the fragment; in the query state
@@ -133,5 +133,14 @@ structure REnv (e : Env) (input : Str) (base : Option Spec.SUrl) (ov : Option Sp
          | some bi, some bs => RUrl bi bs
          | _, _ => False
   ov : ov = e.ov.map stateMap
+
+/-- the host parser lemma, as a hypothesis of the state-machine lemmas (proved separately in `SimHost.lean`) -/
+def HostConforms (I : Idna) : Prop :=
+  ∀ (u : Url) (sbuf : Str) (ns : Bool), sbuf ≠ [] →
+    (match (parseHost {} I u (utf8 sbuf) ns).out, Spec.parseHost (specIdna I) sbuf ns with
+     | .ok h, some hs => h = utf8 hs
+     | .err e, none => e.failure = true
+     | _, _ => False) ∧
+    { (parseHost {} I u (utf8 sbuf) ns).url with qlog := [] } = { u with qlog := [] }
 
 end WhatwgUrl.Proofs.Sim
